@@ -3,7 +3,7 @@ from harness.props import corpus as K
 
 ID = "C01"
 ENTRY = "SearchArray.termfreqs(str) on SearchArray.index(...)"
-LEVEL = "other"
+LEVEL = "proof"
 RULE = ("corpora: rows 1..45 hitting every residue mod 10, documents of length 0,1,17,18,19,35,36,37,... and a few "
         "hundred tokens, vocabularies 1..400 with Zipf skew, batch sizes 1..n+1, workers 1..8, whitespace / table / "
         "generator / tuple tokenizers, unusual spellings; every vocabulary term and absent terms queried. "
